@@ -800,7 +800,10 @@ func (s *Server) cmdSearch(msg *Message) (res resp.Value, err error) {
 			len(sw.whereins) == 0 && len(sw.whereevals) == 0 &&
 			sw.globEverything {
 			// only string values are searchable
-			count := sw.col.StringCount() - int(sargs.cursor)
+			count := 0
+			if sargs.cursor < uint64(sw.col.StringCount()) {
+				count = sw.col.StringCount() - int(sargs.cursor)
+			}
 			if count < 0 {
 				count = 0
 			}
